@@ -22,6 +22,8 @@ import (
 	"io"
 	"log"
 	"os"
+	"os/exec"
+	"runtime"
 	"runtime/debug"
 	"strconv"
 	"strings"
@@ -95,11 +97,10 @@ func standingDenial(k *Case) bool {
 	if !k.Deny || k.E+k.A == 0 || k.Var == "badhook" {
 		return false
 	}
-	switch k.CT {
-	case "other", "kindlower": // written for the other certificate type / with a kind the code does not know
+	// an unknown spelling of kind or certType makes the provisioner refuse everything (or, for a
+	// certType that went through the admin database, reads as ALL): a success is never right
+	if k.CT == "other" { // written for the other certificate type: deliberately not consulted
 		return false
-	case "lower": // an unknown certType spelling: not consulted from ca.json, "ALL" once it went through the admin database
-		return strings.HasPrefix(k.Var, "admin")
 	}
 	return true
 }
@@ -370,8 +371,31 @@ var scenarios = []scenario{
 var srcFns = []string{"authorizeToken", "authorizeSign", "signX509", "authorizeRenew", "renewContext", "Revoke",
 	"signSSH", "SignSSHAddUser", "renewSSH", "rekeySSH", "Finalize", "FinalizeOrder", "PKIOperation", "SignCSR", "Validate", "DoWithContext", "@signers", "@callers", "@scepTypes", "@storers", "@adminStore", "@hookControllers", "@routes"}
 
-func runAll(ks []*Case, workers int) []result {
+// sink appends case lines to the output file, flushed per line; the first `skip` lines are
+// already there (written by an earlier worker process that died) and are not written again.
+type sink struct {
+	mu   sync.Mutex
+	f    *os.File
+	skip int
+	seen int
+}
+
+func (s *sink) emit(line, out string) {
+	if s.seen >= s.skip {
+		fmt.Fprintf(s.f, "%s\t%s\n", line, out)
+	}
+	s.seen++
+}
+
+// runAll runs the cases on `workers` goroutines and emits the lines in order as soon as a
+// prefix is complete (so that a process killed half-way has lost at most the cases in flight).
+// Cases whose line is already in the output file are run only when force is set (their result
+// is needed to generate later cases).
+func runAll(ks []*Case, workers int, s *sink, force bool) []result {
 	out := make([]result, len(ks))
+	done := make([]bool, len(ks))
+	base := s.seen
+	next := 0
 	var wg sync.WaitGroup
 	ch := make(chan int)
 	for w := 0; w < workers; w++ {
@@ -379,7 +403,16 @@ func runAll(ks []*Case, workers int) []result {
 		go func() {
 			defer wg.Done()
 			for i := range ch {
-				out[i] = runCase(ks[i])
+				if force || base+i >= s.skip {
+					out[i] = runCase(ks[i])
+				}
+				s.mu.Lock()
+				done[i] = true
+				for next < len(ks) && done[next] {
+					s.emit(ks[next].render(), out[next].out)
+					next++
+				}
+				s.mu.Unlock()
 			}
 		}()
 	}
@@ -391,28 +424,106 @@ func runAll(ks []*Case, workers int) []result {
 	return out
 }
 
+// defaultWorkers: 12 on a quiet machine, fewer when the machine is already oversubscribed (the
+// verdicts do not depend on timing, only the run time does).
+func defaultWorkers() int {
+	w := 12
+	if b, err := os.ReadFile("/proc/loadavg"); err == nil {
+		var l1 float64
+		if _, err := fmt.Sscan(string(b), &l1); err == nil {
+			cpus := float64(runtime.NumCPU())
+			switch {
+			case l1 > 3*cpus:
+				w = 3
+			case l1 > 1.5*cpus:
+				w = 6
+			}
+		}
+	}
+	return w
+}
+
+// supervise runs the actual work in a child process (this binary with -child) and restarts it,
+// continuing after the lines already written, when it ends abnormally: killed by the kernel's
+// out-of-memory handling on an overloaded machine, for instance. Whatever happens is said on
+// stderr (which ./check keeps in the failure detail): exit status or signal, lines written.
+func supervise(outPath string) int {
+	if f, err := os.Create(outPath); err == nil { // start from an empty file
+		f.Close()
+	}
+	self, err := os.Executable()
+	if err != nil {
+		fmt.Fprintln(os.Stderr, "c17 harness: cannot find own executable:", err)
+		return 2
+	}
+	lines := func() int {
+		b, err := os.ReadFile(outPath)
+		if err != nil {
+			return 0
+		}
+		return strings.Count(string(b), "\n")
+	}
+	for attempt := 1; ; attempt++ {
+		before := lines()
+		args := append([]string{}, os.Args[1:]...)
+		args = append(args, "-child", "-skip", strconv.Itoa(before))
+		cmd := exec.Command(self, args...)
+		cmd.Stdout, cmd.Stderr = os.Stdout, os.Stderr
+		cmd.Env = append(os.Environ(), "GOMEMLIMIT=2GiB") // the work needs a few hundred MiB; keep the heap small on a crowded machine
+		if attempt > 1 {                                  // after a death: less parallelism
+			cmd.Env = append(cmd.Env, "VERIF_C17_WORKERS=4")
+		}
+		err := cmd.Run()
+		if err == nil {
+			return 0
+		}
+		after := lines()
+		state := err.Error()
+		if cmd.ProcessState != nil {
+			state = cmd.ProcessState.String()
+		}
+		fmt.Fprintf(os.Stderr, "c17 harness: worker process (attempt %d) ended abnormally: %s; %d lines written before, %d now\n",
+			attempt, state, before, after)
+		if ee, ok := err.(*exec.ExitError); ok && ee.ExitCode() == 2 {
+			return 2 // usage / setup error reported by the worker itself
+		}
+		if attempt >= 4 || after == before {
+			fmt.Fprintln(os.Stderr, "c17 harness: giving up (no progress or too many restarts)")
+			return 1
+		}
+		fmt.Fprintln(os.Stderr, "c17 harness: restarting the worker process after the lines already written")
+	}
+}
+
 func main() {
 	n := flag.Int("n", 40, "number of random fault pairs per scenario (quick tier)")
 	pairs := flag.Bool("pairs", false, "enumerate all pairs of fault positions (thorough tier)")
 	outp := flag.String("out", "", "output file (input<TAB>impl)")
 	replay := flag.String("replay", "", "file of case lines (case=… field) to re-run instead of generating")
-	workers := flag.Int("workers", 12, "parallel cases")
+	workers := flag.Int("workers", 0, "parallel cases (0 = 12, fewer on an oversubscribed machine)")
 	only := flag.String("op", "", "restrict to one operation (debugging)")
+	child := flag.Bool("child", false, "internal: do the work (the default is to supervise a child that does)")
+	skip := flag.Int("skip", 0, "internal: lines already in the output file")
 	flag.Parse()
+	if !*child {
+		os.Exit(supervise(*outp))
+	}
 	log.SetOutput(io.Discard) // the repository logs start-up messages through the default logger
-	o, err := c.NewOut(*outp)
+	if *workers == 0 {
+		*workers = defaultWorkers()
+		if v, err := strconv.Atoi(os.Getenv("VERIF_C17_WORKERS")); err == nil && v > 0 {
+			*workers = v
+		}
+	}
+	f, err := os.OpenFile(*outp, os.O_WRONLY|os.O_APPEND|os.O_CREATE, 0o644)
 	if err != nil {
 		fmt.Fprintln(os.Stderr, err)
 		os.Exit(2)
 	}
-	defer o.Close()
-	emitAll := func(ks []*Case) []result {
-		rs := runAll(ks, *workers)
-		for i, k := range ks {
-			o.Case(k.render(), rs[i].out)
-		}
-		return rs
-	}
+	defer f.Close()
+	snk := &sink{f: f, skip: *skip}
+	emitAll := func(ks []*Case) []result { return runAll(ks, *workers, snk, false) }
+	emitNeeded := func(ks []*Case) []result { return runAll(ks, *workers, snk, true) } // results feed the generator
 	if *replay != "" {
 		data, err := os.ReadFile(*replay)
 		if err != nil {
@@ -465,7 +576,7 @@ func main() {
 	for _, s := range scs {
 		base = append(base, s.newCase(-1))
 	}
-	baseRes := emitAll(base)
+	baseRes := emitNeeded(base)
 
 	// 3. faults
 	i0 := int(c.Seed() % 7) // which realisation goes with which position varies with the seed
